@@ -24,9 +24,9 @@ theorem prefix_partial (r : Routine) (ps : PrefixSlices r) (lJ : findPc r 4841 =
     (hrk : rk.length = 32) (hrkb : ∀ x ∈ rk, x < 2 ^ 32) (hn : nonce.length = 12) (hnb : ∀ x ∈ nonce, x < 2 ^ 8) (hnp : np + 16 < 2 ^ 63)
     (hal : aad.length % 16 = 0) (hab : ∀ x ∈ aad, x < 2 ^ 8) (hap : ap + aad.length < 2 ^ 63) :
     ∃ s5 N, N ≤ 34 * (aad.length / 16) + 1200 ∧ Reach r 0 s0 1499 s5 N ∧ AfterPrefix rk nonce aad np tp ap s5 := by
-  obtain ⟨s1, r1, p1, e1, h19, g1⟩ := phaseH r ps s0 hG hV hK rk np tp ap nonce aad e hrk hrkb
-  obtain ⟨s2, r2, p2, e2, gc2, g2⟩ := phaseGh r ps s1 rk np tp ap nonce aad p1 e1 h19 g1
-  obtain ⟨s3, r3, p3, e3, gc3, g3, v14, v6, _⟩ := phaseJ0_12 r ps lJ s2 rk np tp ap nonce aad p2 e2 _ gc2 g2 hn hnb hnp
+  obtain ⟨s1, r1, p1, e1, h19, g1, _⟩ := phaseH r ps s0 hG hV hK rk np tp ap nonce aad e hrk hrkb
+  obtain ⟨s2, r2, p2, e2, gc2, g2, _⟩ := phaseGh r ps s1 rk np tp ap nonce aad p1 e1 h19 g1
+  obtain ⟨s3, r3, p3, e3, gc3, g3, v14, v6, _, _⟩ := phaseJ0_12 r ps lJ s2 rk np tp ap nonce aad p2 e2 _ gc2 g2 hn hnb hnp
   have hjb : (nonce ++ [0, 0, 0, 1]).length = 16 := by simp [hn]
   have hjbb : ∀ x ∈ nonce ++ [0, 0, 0, 1], x < 2 ^ 8 := by
     intro x hx
@@ -35,7 +35,7 @@ theorem prefix_partial (r : Routine) (ps : PrefixSlices r) (lJ : findPc r 4841 =
     · exact hnb x h1
     · simp only [List.mem_cons, List.not_mem_nil, or_false] at h1
       rcases h1 with rfl | rfl | rfl | rfl <;> decide
-  obtain ⟨s4, r4, p4, e4, gc4, g4, v15, k14, _⟩ := phaseT r ps s3 rk np tp ap nonce aad p3 e3 _ gc3 g3 hrk hrkb _ hjb hjbb v6
+  obtain ⟨s4, r4, p4, e4, gc4, g4, v15, k14, _, _⟩ := phaseT r ps s3 rk np tp ap nonce aad p3 e3 _ gc3 g3 hrk hrkb _ hjb hjbb v6
   obtain ⟨s5, N, hN, r5, p5, e5, gc5, v21, lt21, k5⟩ := phaseA_whole r ps lb s4 rk np tp ap nonce aad p4 e4 _ gc4 hal hab hap
   refine ⟨s5, 549 + 79 + 15 + 530 + N, by omega, ((((r1.trans r2).trans r3).trans r4).trans r5).cast rfl rfl,
     ⟨p5, e5, gc5, ?_, ?_, ?_, v21, lt21⟩⟩
